@@ -473,13 +473,15 @@ def shrink(ctx, hist, fp, rounds=12):
             if k not in seen and k != repr(ops):
                 seen.add(k)
                 res.append({"flavour": h["flavour"], "neg": h["neg"], "ops": copy.deepcopy(v)})
-        return res[:400]
+        return res
 
     cur = hist
     for _ in range(rounds):
         cands = variants(cur)
         if not cands:
             break
+        cost = max(1, len(run_history(cur)["ev"]))
+        cands = cands[:max(8, min(400, 30000 // cost))]       # big chunks come first; bound the TLC work per round
         traces = [run_history(c) for c in cands]
         rej = ctx.validate("TimersTrace", traces, count=False)
         good = [(len(repr(cands[x.idx]["ops"])), x.idx) for x in rej if fingerprint(traces[x.idx], x) == fp]
@@ -534,12 +536,13 @@ def run_flavour(ctx, flavour, what):
     depth, maxcalls = ctx.pick(3, 4), 3
     for h in exhaustive_histories(flavour, depth, maxcalls, True, scripts=True):
         traces.append(run_history(h))
-    for h in exhaustive_histories(flavour, depth + 1, maxcalls, True, scripts=False):
-        traces.append(run_history(h))
+    if not ctx.quick:
+        for h in exhaustive_histories(flavour, depth + 1, maxcalls, True, scripts=False):
+            traces.append(run_history(h))
     nex = len(traces)
     ctx.exhaustive = True
     ctx.extra["exhaustive_depth_with_one_nested_op"] = depth
-    ctx.extra["exhaustive_depth_top_level_only"] = depth + 1
+    ctx.extra["exhaustive_depth_top_level_only"] = depth if ctx.quick else depth + 1
     ctx.extra["exhaustive_max_calls"] = maxcalls
     ctx.extra["exhaustive_histories"] = nex
     for i in range(ctx.pick(250, 6000)):
@@ -573,6 +576,23 @@ def run_flavour(ctx, flavour, what):
     report(ctx, traces, rej, what)
     bad = {x.idx for x in rej}
     good = [t for i, t in enumerate(traces) if i not in bad and any(e["e"] == "run" for e in t["ev"])]
+    # Impl layer bound to the code: the same executions replayed through the algorithm as transcribed
+    # (deterministic, so it also predicts tie order and the exact timeout()).  A mismatch is drift of the
+    # transcription, not a property violation.
+    implmod = "TimersImplTrace" if flavour == "reactor" else "ClockImplTrace"
+    ok = [(i, t) for i, t in enumerate(traces) if i not in bad]
+    nsim = len(behs)
+    sample = [t for i, t in ok if (nex <= i < len(traces) - nsim) or (i < nex and i % ctx.pick(10, 3) == 0)
+              or (i >= len(traces) - nsim and i % ctx.pick(4, 1) == 0)]
+    rej_i = ctx.validate(implmod, sample, shard_size=ctx.pick(400, 3000), count=False)
+    ctx.impl_drift = len(rej_i)
+    ctx.extra["impl_traces_replayed"] = len(sample)
+    if rej_i:
+        x = rej_i[0]
+        ctx.extra["impl_drift_example"] = dict(hist=sample[x.idx]["hist"], at=x.reached)
+        ctx.log("impl drift: %d of %d executions are not reproduced step by step by %s (not a verdict)" % (len(rej_i), len(sample), implmod))
+    else:
+        ctx.log("%s reproduces %d real executions step by step" % (implmod, len(sample)))
     if good:
         ctx.selftest_rejects("TimersTrace", good[::max(1, len(good) // 24)], mutate, n=20)
     return traces, rej
